@@ -37,6 +37,9 @@ impl<T> VStream<T> {
     { unimplemented!() }
 }
 pub fn drop<T>(_t: T) {}
+pub assume_specification<T, F: FnOnce(T) -> bool> [Option::<T>::is_some_and] (o: Option<T>, f: F) -> (r: bool)
+    requires o matches Some(v) ==> f.requires((v,)),
+    ensures o matches Some(v) ==> f.ensures((v,), r), o is None ==> !r;
 pub assume_specification<T: Copy> [Option::<&T>::copied] (o: Option<&T>) -> (r: Option<T>)
     ensures r == (match o { Some(v) => Some(*v), None => None });
 
